@@ -10,6 +10,7 @@
            | [c:"arity"] | [c:"bad-value"] | [c:"out-of-range"] | [c:"no-such-key"] | [c:"type"]
            | [c:"unsupported-option"] | [c:"pipeline", cs: Seq(Cause)]
            | [c:"oom"]    -- not an Elvish exception: the program left the model (see below)
+           | [c:"unspec"] -- not an Elvish exception: Unspecified outcome (see ElvCore.tla, pipelines)
 
    Strings are byte sequences (TLC cannot index TLA+ strings).  Numbers inside the model are exact
    integers with |n| <= MaxInt; an arithmetic step leaving that range, and every use of a string as
@@ -42,6 +43,9 @@ CType        == [c |-> "type"]
 CBadOpt      == [c |-> "unsupported-option"]
 CPipeline(cs) == [c |-> "pipeline", cs |-> cs]
 COOM         == [c |-> "oom"]
+CUnspec      == [c |-> "unspec"]    \* outcome left open by the reference (schedule-dependent pipeline)
+\* causes that are not Elvish exceptions: they propagate uncaught to the chunk, which is then skipped
+Skip(c)      == c.c \in {"oom", "unspec"}
 
 InRange(n) == n >= -MaxInt /\ n <= MaxInt
 
@@ -239,6 +243,24 @@ Assoc(v, key, val) ==
 \* Elements of an iterable value: lists (elements) and ASCII strings (characters).
 Iterable(v) == v.k \in {"list", "str"}
 Elements(v) == IF v.k = "list" THEN v.es ELSE [i \in 1..Len(v.s) |-> VStr(<<v.s[i]>>)]
+
+\* ---------------------------------------------------------------- ordering (builtins compare, order)
+\* "lt" | "eq" | "gt" | "unc" (values of different or unordered types that are not equal)
+RECURSIVE Cmp(_, _)
+RECURSIVE CmpSeq(_, _, _)
+RECURSIVE CmpBytes(_, _, _)
+CmpInt(a, b) == IF a < b THEN "lt" ELSE IF a > b THEN "gt" ELSE "eq"
+CmpBytes(s, t, i) == IF i > Len(s) \/ i > Len(t) THEN CmpInt(Len(s), Len(t))
+                     ELSE IF s[i] # t[i] THEN CmpInt(s[i], t[i]) ELSE CmpBytes(s, t, i + 1)
+CmpSeq(a, b, i) == IF i > Len(a) \/ i > Len(b) THEN CmpInt(Len(a), Len(b))
+                   ELSE LET o == Cmp(a[i], b[i]) IN IF o # "eq" THEN o ELSE CmpSeq(a, b, i + 1)
+Cmp(a, b) ==
+  IF a.k # b.k THEN "unc"
+  ELSE CASE a.k = "bool" -> IF a.b = b.b THEN "eq" ELSE IF ~a.b THEN "lt" ELSE "gt"
+         [] a.k = "num"  -> CmpInt(a.n, b.n)
+         [] a.k = "str"  -> CmpBytes(a.s, b.s, 1)
+         [] a.k = "list" -> CmpSeq(a.es, b.es, 1)
+         [] OTHER        -> IF ValEq(a, b) THEN "eq" ELSE "unc"
 
 \* ---------------------------------------------------------------- observation
 \* Matches(v, rec): the model value v against the executor's projection rec of a real value.
